@@ -224,6 +224,11 @@ theorem quint_loop (f n : Nat) (hf : f < 12) (hn : n ≤ 28) (seg : Nat) (hs : s
   exact inner_ok f _ [] n hf (Nat.mod_lt _ (by omega)) (by simp) (by simp only [List.length_nil]; omega)
     _ (by rewrite [value_nil]; rfl) seg (by omega) _ (by simp only [List.length_nil]; omega)
 
+theorem flatMap_pure_eq_map {α β : Type} (l : List α) (g : α → β) : l.flatMap (fun a => [g a]) = l.map g := by
+  induction l with
+  | nil => rfl
+  | cons a l ih => simp only [List.flatMap_cons, List.map_cons, ih, List.singleton_append]
+
 /-- from the world cell to resolution 0 -/
 theorem children_world_zero : cellToChildren (enc world) (some 0) = .ok ((descendantsOrdered world 0).map enc) := by
   rewrite [cellToChildren_loop _ _ (deserialize_enc_path (p := world) trivial) 0
@@ -247,7 +252,8 @@ theorem children_world_zero : cellToChildren (enc world) (some 0) = .ok ((descen
       rewrite [this]
       exact descendantsAt_succ world
     rewrite [hd, List.map_map]
-    simp [List.flatMap_def, enc, Function.comp_def]
+    simp only [List.flatMap_cons, List.flatMap_nil, List.append_nil]
+    exact flatMap_pure_eq_map _ _
 
 /-- from the world cell to resolution `1 + n` -/
 theorem children_world_succ (n : Nat) (hn : n ≤ 20) :
@@ -302,6 +308,7 @@ theorem children_deep (f k : Nat) (ds : List Nat) (hp : WF (deep f k ds)) (n : N
     show (1 + (ds.length : Int) + (n : Int) - max (1 + (ds.length : Int)) 1).toNat = n
     omega
   have hb := pow_bound (value ds) ds.length n (value_lt ds hd) (by omega)
+  have hp4 : 0 < 4 ^ n := Nat.pow_pos (by omega)
   rewrite [cellToChildren_loop _ _ (deserialize_enc_path hp) _
     (by show (1 + (ds.length : Int)) < _; omega) (by omega)
     (by show 1 + (ds.length : Int) + (n : Int) - max (1 + (ds.length : Int)) 1 ≤ 20; omega)
